@@ -181,8 +181,10 @@ pub fn run() {
             _ => 64,
         };
         let (offset, length) = if templated && flip(5, 6) {
-            // disjoint slots of 0x400 bytes
-            ((k as u32 % 8) * 0x400, need.max(4))
+            // disjoint slots of 0x400 bytes; the device-configuration window also gets lengths
+            // that are not a whole number of words
+            let len = if cfg_type == 4 { [64u32, 4, 5, 6, 7, 9, 13, 255][choose(8) as usize] } else { need.max(4) };
+            ((k as u32 % 8) * 0x400, len)
         } else {
             let length = match choose(8) {
                 0 => need,
@@ -242,7 +244,7 @@ pub fn run() {
     oplog(|| format!("independent verdict: {verdict:?}"));
     // device side of the structures: served exactly at the first sufficiently long capability of each type
     let to_win = |c: &Cap| Win { bar: c.bar, off: c.offset as u64, len: c.length as u64 };
-    let nq = 3usize;
+    let nq = [3usize, 9, 12, 17][choose(4) as usize];
     let mult = chosen.notify.as_ref().map(|c| c.extra).unwrap_or(0);
     let notify_len = chosen.notify.as_ref().map(|c| c.length).unwrap_or(0);
     let offs: Vec<u16> = (0..nq as u16)
@@ -272,7 +274,7 @@ pub fn run() {
         w.ensure_queues(nq, 256);
         w.tr.device_type = 2;
         w.tr.has_config = chosen.device.is_some();
-        w.tr.config = (0..chosen.device.as_ref().map(|d| d.length.min(256)).unwrap_or(0)).map(|i| i as u8 ^ 0x5a).collect();
+        w.tr.config = (0..chosen.device.as_ref().map(|d| d.length.min(65536)).unwrap_or(0)).map(|i| i as u8 ^ 0x5a).collect();
         let p = w.bus.pci.get_or_insert_with(Default::default);
         p.funcs.insert(VIRTIO_DF, f);
         p.virtio_df = Some(VIRTIO_DF);
@@ -356,17 +358,18 @@ pub fn run() {
         std::mem::forget(t);
         return;
     }
-    ops(t, mult, notify_len);
+    let cfg_window_exact = chosen.device.as_ref().is_none_or(|d| d.length <= 65536);
+    ops(t, mult, notify_len, nq, cfg_window_exact);
 }
 
-fn ops(mut t: PciTransport, mult: u32, notify_len: u32) {
+fn ops(mut t: PciTransport, mult: u32, notify_len: u32, nq: usize, cfg_window_exact: bool) {
     let n_ops = 4 + choose(30);
     for _ in 0..n_ops {
         if violated() {
             break;
         }
-        let q = choose(3) as u16;
-        match choose(10) {
+        let q = choose(nq as u64) as u16;
+        match choose(11) {
             0 => {
                 let f = choose(u64::MAX);
                 with(|w| w.tr.device_features = f);
@@ -443,6 +446,24 @@ fn ops(mut t: PciTransport, mult: u32, notify_len: u32) {
                 with(|w| w.tr.config_gen = g);
                 if t.read_config_generation() != g {
                     violation("pci-value", "read_config_generation", "generation mismatch".into());
+                }
+            }
+            9 => {
+                // accesses at the end of the device-configuration window: inside -> must succeed
+                // (the transport may only rely on whole words), outside -> must fail and touch nothing
+                let clen = with(|w| if w.tr.has_config { w.tr.config.len() } else { 0 });
+                if clen >= 4 && cfg_window_exact {
+                    let off = (clen / 4 * 4).saturating_sub(4 * choose(2) as usize);
+                    let before = with(|w| w.bus.accesses);
+                    let r = t.read_config_space::<u32>(off);
+                    let inside_words = off + 4 <= clen / 4 * 4;
+                    let inside_real = off + 4 <= clen;
+                    if inside_words && r.is_err() {
+                        violation("pci-value", "read_config_space", format!("read of 4 bytes at {off} inside a {clen}-byte window failed: {r:?}"));
+                    }
+                    if !inside_real && (r.is_ok() || with(|w| w.bus.accesses) != before) {
+                        violation("config-access-outside-window", "read_config_space", format!("read of 4 bytes at offset {off} of a {clen}-byte device-configuration window returned {r:?} / performed accesses"));
+                    }
                 }
             }
             _ => {
